@@ -175,12 +175,15 @@ func (fc *FnCtx) evalCall(st *State, c *ast.CallExpr, stmt bool) Val {
 	}
 	// 1. skeleton ghost effects declared by the enclosing function's contract
 	if staticName != "" {
-		if oc := fc.findOnCall(staticName, pkgPath, kind, false, c); oc != nil {
+		if oc := fc.findOnCall(staticName, pkgPath, kind, false, c); oc != nil && !oc.Also {
 			return fc.applyOnCall(st, oc, c, args, resT, staticName)
 		}
 	}
 	if oc := fc.findOnCall(name, pkgPath, kind, false, c); oc != nil {
-		return fc.applyOnCall(st, oc, c, args, resT, name)
+		if !oc.Also {
+			return fc.applyOnCall(st, oc, c, args, resT, name)
+		}
+		fc.onCallRequires(st, oc, c, args, name)
 	}
 	// 2. callee contract
 	if ct := fc.lookupContract(name, pkgPath); ct != nil && fn != nil {
@@ -597,6 +600,14 @@ func (fc *FnCtx) applyContract(st *State, ct *FuncContract, fn *types.Func, cpos
 		bind[rn[i]] = v
 		res = append(res, v)
 		if sv, ok := v.(VSlice); ok {
+			// `ensures extends(r, d)` / `reuses(r, d)` with d at offset 0: the result starts at offset 0 too (in place: d's
+			// offset; reallocated: 0). Using the literal keeps index terms free of a symbolic offset.
+			if fc.resultAtZero(st, pre, ct, rn[i], bind) {
+				sv.Off = mkInt(0)
+				v = sv
+				bind[rn[i]] = v
+				res[len(res)-1] = v
+			}
 			fc.axiom(lt(sv.Rgn, st.nextR))
 		}
 	}
@@ -860,7 +871,8 @@ func (fc *FnCtx) callSite(call *ast.CallExpr, name string) int {
 	return fc.siteOrd[call][name]
 }
 
-func (fc *FnCtx) applyOnCall(st *State, oc *OnCall, c *ast.CallExpr, args []Val, resT types.Type, name string) Val {
+// onCallRequires asserts the site preconditions of an `on call` block.
+func (fc *FnCtx) onCallRequires(st *State, oc *OnCall, c *ast.CallExpr, args []Val, name string) {
 	bind := map[string]Val{}
 	for i, p := range oc.Params {
 		if p == "_" || i >= len(args) {
@@ -868,7 +880,6 @@ func (fc *FnCtx) applyOnCall(st *State, oc *OnCall, c *ast.CallExpr, args []Val,
 		}
 		bind[p] = args[i]
 	}
-	pre := st.clone()
 	for k, cl := range oc.Requires {
 		if !fc.clauseActive(cl) {
 			// owned by another property: neither proved nor assumed here (a mid-path assumption could hide a
@@ -881,6 +892,18 @@ func (fc *FnCtx) applyOnCall(st *State, oc *OnCall, c *ast.CallExpr, args []Val,
 		fc.assert(st, "requires", fmt.Sprintf("call[%s].%s", name, clauseName("requires", cl, k)), t, c.Pos(), cl.Src)
 		fc.curEnv = nil
 	}
+}
+
+func (fc *FnCtx) applyOnCall(st *State, oc *OnCall, c *ast.CallExpr, args []Val, resT types.Type, name string) Val {
+	bind := map[string]Val{}
+	for i, p := range oc.Params {
+		if p == "_" || i >= len(args) {
+			continue
+		}
+		bind[p] = args[i]
+	}
+	pre := st.clone()
+	fc.onCallRequires(st, oc, c, args, name)
 	// results
 	var res VTuple
 	if resT != nil {
